@@ -59,7 +59,9 @@ def cases(draw):
     lim = max(0, W - w)
     a = draw(st.integers(-min(4, lim), min(3, lim)))
     b = min(min(4, lim), a + draw(st.integers(0, 4)))
-    p = {"pair": pair, "pipeline": steps, "disp": [a, b], "w": w}
+    p = {"pair": pair, "pipeline": steps, "disp": [a, b], "w": w,
+         # row / column coordinates of the datasets (a pair read through a ROI does not start at 0): flags must not care
+         "origin": draw(st.sampled_from([None, None, [5, 22], [0, 3], [40, 0]]))}
     names = [n.split(".")[0] for n, _ in steps]
     if "validation" not in names and draw(st.integers(0, 2)) == 0:
         gmin = draw(st.lists(st.lists(st.integers(a, b), min_size=W, max_size=W), min_size=H, max_size=H))
@@ -170,8 +172,9 @@ def body(ctx: Ctx, p: dict) -> None:
                 rec[f"{side}_m"] = dsp["validity_mask"].data.copy()
         snaps.append(rec)
 
+    r0_, c0_ = p.get("origin") or (0, 0)
     drive.run_pipeline(left, right, gen.pipe_dict(steps), (dmin, dmax), msk_left=ml, msk_right=mr,
-                       spy=drive.Spy(after=after), **conv)
+                       spy=drive.Spy(after=after), row0=r0_, col0=c0_, **conv)
     stats = None
     seen_validation = False
     prev = {"left": None, "right": None}
@@ -238,6 +241,8 @@ def body(ctx: Ctx, p: dict) -> None:
             prev[side] = m
     counts = {k: kinds.count(k) for k in set(kinds)}
     classes = []
+    if p.get("origin"):
+        classes.append("coordinates-not-from-0")
     if any(v > 1 for k, v in counts.items() if k in ("refinement", "filter", "validation")):
         classes.append("step-twice")
     if has_val:
